@@ -379,7 +379,10 @@ impl<'a> Gen<'a> {
         if self.rec && self.body_depth > 0 && self.in_field == 0 && !ifns.is_empty() && self.r.chance(1, 3) {
             // `<integer> ^g` inside a function body: the frame is handed to `g` (Compile5)
             let g = ifns[self.r.usize(ifns.len())].clone();
-            let x = self.int_term(flow);
+            // a small non-negative literal, like every call site: the count-down functions never reach 0
+            // from a negative argument (an integer VARIABLE may hold one: accumulators are subtracted from)
+            let x = self.int();
+            let _ = flow;
             return (vec![x, T1::TailNamed(g)], Ty::Any);
         }
         if self.rec && self.r.chance(1, 5) {
